@@ -370,6 +370,8 @@ fn build_on_disk(c: &Case, dir: &PathBuf) -> Result<Option<Zones>, String> {
     for d in zdirs.iter().chain(hdirs.iter()) {
         std::fs::create_dir_all(d).map_err(io)?;
     }
+    let store = dir.join("store");
+    std::fs::create_dir_all(&store).map_err(io)?;
     // a sub-directory inside a -Z directory is skipped by the loader
     std::fs::create_dir_all(zdirs[0].join("subdir")).map_err(io)?;
     let mut zone_files = Vec::new();
@@ -386,7 +388,15 @@ fn build_on_disk(c: &Case, dir: &PathBuf) -> Result<Option<Zones>, String> {
         if c.fault == 2 && i == 0 {
             text.extend_from_slice(&[0xff, 0xfe, b'\n']);
         }
-        std::fs::write(&path, text).map_err(io)?;
+        // every other file of a directory is a symbolic link to a file kept elsewhere
+        if spec.dir.is_some() && i % 2 == 1 {
+            let real = store.join(format!("zone-{i}"));
+            std::fs::write(&real, text).map_err(io)?;
+            let _ = std::fs::remove_file(&path);
+            std::os::unix::fs::symlink(&real, &path).map_err(io)?;
+        } else {
+            std::fs::write(&path, text).map_err(io)?;
+        }
         if spec.dir.is_none() {
             zone_files.push((i, path));
         }
@@ -399,7 +409,14 @@ fn build_on_disk(c: &Case, dir: &PathBuf) -> Result<Option<Zones>, String> {
             None => dir.join(format!("h-{}-{}", i, spec.file_name)),
             Some(d) => hdirs[d as usize % 2].join(&spec.file_name),
         };
-        std::fs::write(&path, hosts_of(entries)).map_err(io)?;
+        if spec.dir.is_some() && i % 2 == 1 {
+            let real = store.join(format!("hosts-{i}"));
+            std::fs::write(&real, hosts_of(entries)).map_err(io)?;
+            let _ = std::fs::remove_file(&path);
+            std::os::unix::fs::symlink(&real, &path).map_err(io)?;
+        } else {
+            std::fs::write(&path, hosts_of(entries)).map_err(io)?;
+        }
         if spec.dir.is_none() {
             host_files.push((i, path));
         }
@@ -426,7 +443,7 @@ pub fn def() -> PropertyDef {
     PropertyDef {
         id: "C12",
         level: "exploration",
-        rule: "1..5 zone files (authoritative for example.com., a.example.com. or the root, or non-authoritative; 0..6 records each incl. wildcards at nodes the other files have and have not, identical and overlapping records, different SOAs) and 0..3 hosts files with conflicting entries, composed (5/6) in memory through Zone::deserialise + Zones::insert_merge + Hosts::merge or (1/6) as files and directories on disk through resolved::fs::load_zone_configuration (explicit files first, then each directory sorted; file names chosen so that sorted order differs from creation order; 1/4 of the on-disk cases carry a bad file: syntax error, non-UTF-8, missing file, missing directory, bad hosts file). Oracle: per apex the flat content equals the set union of the files' records with the last SOA; exactly one SOA; every interesting name x 23 query types resolves as R-ZONE over the union (when the union is inside scope D1); hosts entries per (name, family) are the last file's, served from the root zone with TTL 5; any bad file => no configuration. Non-trivial = two inputs share an apex and differ in wildcard records or SOA. Distinct by hash of the case.",
+        rule: "1..5 zone files (authoritative for example.com., a.example.com. or the root, or non-authoritative; 0..6 records each incl. wildcards at nodes the other files have and have not, identical and overlapping records, different SOAs) and 0..3 hosts files with conflicting entries, composed (5/6) in memory through Zone::deserialise + Zones::insert_merge + Hosts::merge or (1/6) as files and directories on disk through resolved::fs::load_zone_configuration (explicit files first, then each directory sorted; file names chosen so that sorted order differs from creation order; every other directory entry is a symbolic link to a file kept elsewhere; 1/4 of the on-disk cases carry a bad file: syntax error, non-UTF-8, missing file, missing directory, bad hosts file). Oracle: per apex the flat content equals the set union of the files' records with the last SOA; exactly one SOA; every interesting name x 23 query types resolves as R-ZONE over the union (when the union is inside scope D1); hosts entries per (name, family) are the last file's, served from the root zone with TTL 5; any bad file => no configuration. Non-trivial = two inputs share an apex and differ in wildcard records or SOA. Distinct by hash of the case.",
         assumptions: vec!["zone files are rendered in the plain form (C11 covers syntax variants)", "lookups are compared only when the union holds nothing below a delegation point (D1)"],
         parts: vec![Box::new(Compose)],
         budget_s: |t| t.pick(900, 10_800),
